@@ -18,8 +18,6 @@ G40 = "ATGGCCTAAACGTTTGGGCCCATATAGCTAGCTAACGGTA"
 
 
 def build_matrix():
-    import uuid
-
     from inscripta.biocantor.gene.cds import CDSInterval
     from inscripta.biocantor.gene.cds_frame import CDSFrame, CDSPhase
     from inscripta.biocantor.gene.codon import Codon
@@ -31,7 +29,7 @@ def build_matrix():
     from inscripta.biocantor.io.models import (AnnotationCollectionModel, FeatureIntervalModel, GeneIntervalModel, ParentModel,
                                                TranscriptIntervalModel, VariantIntervalModel)
     from inscripta.biocantor.io.parser import seq_chunk_to_parent, seq_to_parent
-    from inscripta.biocantor.location.location_impl import CompoundInterval, EmptyLocation, SingleInterval
+    from inscripta.biocantor.location.location_impl import CompoundInterval, SingleInterval
     from inscripta.biocantor.location.strand import Strand
     from inscripta.biocantor.parent import Parent, SequenceType
     from inscripta.biocantor.sequence import Alphabet, Sequence
@@ -512,6 +510,12 @@ def build_matrix():
     E("AnnotationCollection.query_by_position/start/start>end", True, iq, lambda: coll().query_by_position(10, 5))
     E("AnnotationCollection.query_by_position/start/before-bounds", True, iq, lambda: coll(start=5, end=30).query_by_position(2, 10))
     E("AnnotationCollection.query_by_position/end/beyond-bounds", True, iq, lambda: coll().query_by_position(2, 41))
+    E("AnnotationCollection.query_by_position/end/beyond-bounds-without-parent", True, iq,
+      lambda: coll(genes=[gene([tx(parent_or_seq_chunk_parent=None)], parent_or_seq_chunk_parent=None)], feature_collections=None, start=1, end=30,
+                   parent_or_seq_chunk_parent=None).query_by_position(2, 31, completely_within=False))
+    E("AnnotationCollection.query_by_position/start/before-bounds-without-parent", True, iq,
+      lambda: coll(genes=[gene([tx(parent_or_seq_chunk_parent=None)], parent_or_seq_chunk_parent=None)], feature_collections=None, start=1, end=30,
+                   parent_or_seq_chunk_parent=None).query_by_position(0, 20, completely_within=False))
     E("AnnotationCollection.query_by_position/start,end/zero-length", True, iq, lambda: coll().query_by_position(5, 5))
     E("AnnotationCollection.get_children_by_type/child_type/unknown", True, "'raise InvalidQueryError(\"Cannot get children of type\")'", lambda: coll().get_children_by_type("exon"))
     E("AnnotationCollection.to_dict/export_parent/chunk-relative", True, "_parent_to_dict docstring 'Raises: NotImplementedError'",
@@ -563,7 +567,6 @@ def build_matrix():
     E("AnnotationCollectionModel.to_annotation_collection/genes/exon-beyond-sequence", True, "Parent.__init__ location.end > len(sequence)",
       lambda: AnnotationCollectionModel.Schema().load(dict(genes=[dict(transcripts=[dict(txd, exon_ends=[10, 50])])],
                                                            parent_or_seq_chunk_parent=dict(seq=G40, sequence_name="chr1"))).to_annotation_collection())
-    _ = (uuid, EmptyLocation)
     return out
 
 
